@@ -181,8 +181,14 @@ fn main() {
     }
     // many segments
     if violation.is_none() {
-        for &pieces in &[33usize, 100, 1000, 4097, 13108, 26215, 65536, 65537, 70000] {
-            for c in cs.iter().filter(|c| c.ty.ends_with("with 1 segments")) {
+        // every number of segments 5..=520 (compact length prefixes with escape bytes), then the size thresholds
+        let sizes: Vec<usize> = (5..=520).chain([1000usize, 4097, 13108, 26215, 65535, 65536, 65537, 70000]).collect();
+        for &pieces in &sizes {
+            for (ci, c) in cs.iter().filter(|c| c.ty.ends_with("with 1 segments")).enumerate() {
+                // (below 1000 segments: two of the piecewise types per size, alternating, to bound the cost)
+                if pieces < 1000 && (ci + pieces) % 3 != 0 {
+                    continue;
+                }
                 let per = c.n;
                 let mut nums = Vec::with_capacity(pieces * per);
                 for i in 0..pieces {
@@ -205,7 +211,7 @@ fn main() {
         "engine": "exhaustive enumeration of number contents per serializable type, subject built with feature borsh; borsh::to_vec / from_slice, and deserialize_reader through readers returning short reads (1, 7, 100, 8192 bytes)",
         "states": states, "transitions": states - 1, "traces_validated_against_impl": execs, "evaluations": execs, "distinct_nontrivial": nontrivial,
         "types": cs.iter().map(|c| c.ty.clone()).collect::<Vec<_>>(), "exhaustive": violation.is_none(),
-        "bounds": "same number alphabet (incl. +-inf and f32/f16-exact doubles), positions sweeps and cubes as the serde phase; 0..4 segments; plus 33..70000 segments for every Piecewise type",
+        "bounds": "same number alphabet (incl. +-inf and f32/f16-exact doubles), positions sweeps and cubes as the serde phase; 0..4 segments; every number of segments 5..520 (each for a third of the Piecewise types in turn); 1000..70000 segments for every Piecewise type",
         "samples": samples, "violation": violation, "wall_s": t0.elapsed().as_secs_f64(),
     });
     std::fs::write(&args[3], serde_json::to_string_pretty(&part).unwrap()).unwrap_or_else(|e| machinery(&format!("cannot write part file: {e}")));
